@@ -4,6 +4,8 @@ base = json.load(open("/root/.vp/BASELINE.json"))
 out = tempfile.mktemp(suffix=".xml", prefix="lasio-baseline-")
 env = dict(os.environ); env.pop("LASIO_VERIF", None)
 cmd = base["cmd"].replace("<file>", out)
+if os.environ.get("BASELINE_REPO"):
+    cmd = cmd.replace("cd /repo", "cd " + os.environ["BASELINE_REPO"])
 extra = " ".join(sys.argv[1:])
 p = subprocess.run(cmd + (" -n 8" if "--par" in extra else ""), shell=True, env=env, capture_output=True, text=True)
 passed = set()
